@@ -682,6 +682,8 @@ class C18Runner:
             self.check_db("history add")
             return
         if k == "hdel":
+            # (first: asking for the shell may restart a killed one, whose duplicate purge changes the rows)
+            sh = self.shell_for(op["shell"])
             known = [r for r in self.rows if r.get("rowid") is not None]
             if not known:
                 return
@@ -690,7 +692,6 @@ class C18Runner:
                 v = known[p % len(known)]
                 if v not in victims:
                     victims.append(v)
-            sh = self.shell_for(op["shell"])
             cmd = "history delete " + " ".join(str(v["rowid"]) for v in victims)
             self.ev("history-delete", [v["seq"] for v in victims])
             self.type_and_run(sh, " " + cmd)
